@@ -2720,7 +2720,7 @@ class Processor:
             if isinstance(data, (CommentedMap, ryod)):
                 for i, k in [
                         (idx, key) for idx, key in enumerate(data.keys())
-                        if key is reference_node
+                        if key is reference_node and hasattr(key, "anchor")
                 ]:
                     data.insert(i, replacement_node, data.pop(k))
                 for k, val in data.non_merged_items():
@@ -2733,7 +2733,10 @@ class Processor:
                                 replacement_node)
             elif isinstance(data, (CommentedSeq, list)):
                 for idx, item in enumerate(data):
-                    if data is parent and item is reference_node:
+                    if item is reference_node and (
+                        hasattr(item, "anchor") or
+                        (data is parent and idx == parentref)
+                    ):
                         data[idx] = replacement_node
                     else:
                         recurse(item, parent, parentref, reference_node,
@@ -2798,6 +2801,9 @@ class Processor:
             prefix="Processor::_update_node:  ",
             data={ "__FROM__": change_node, "___TO___": new_node })
 
+        if (isinstance(parent, list) and isinstance(parentref, int)
+                and parentref < 0):
+            parentref += len(parent)
         recurse(self.data, parent, parentref, change_node, new_node)
 
         self.logger.debug(
